@@ -1037,6 +1037,13 @@ impl<'a> Engine<'a> {
                 if let Caught::Injected(..) = fault::catch_live(|| drop(d)) {
                     injected = true;
                 }
+            } else if self.rng.chance(1, 3) {
+                // dropped by UNWINDING: the consumer panics while it still holds the partly consumed drain
+                if !self.light { self.cx.rep.hit("drain:dropped-by-unwinding"); }
+                let _ = fault::catch(move || {
+                    let _hold = d;
+                    panic!("the consumer of the drain panics");
+                });
             } else {
                 drop(d);
             }
@@ -1152,6 +1159,13 @@ impl<'a> Engine<'a> {
                     if let Caught::Injected(..) = fault::catch_live(|| drop($it)) {
                         injected = true;
                     }
+                } else if self.rng.chance(1, 3) {
+                    // dropped by UNWINDING: the consumer panics while it still holds the iterator
+                    if !self.light { self.cx.rep.hit("consume:dropped-by-unwinding"); }
+                    let _ = fault::catch(move || {
+                        let _hold = $it;
+                        panic!("the consumer of the iterator panics");
+                    });
                 } else {
                     drop($it);
                 }
@@ -2044,7 +2058,16 @@ impl<'a> Engine<'a> {
                         self.cx.rep.evaluations += 1;
                         self.cx.rep.hit("drop-copy");
                         let dead = suts.remove(ix);
-                        drop(dead);
+                        if self.rng.chance(1, 3) {
+                            // the container goes out of scope because a panic unwinds through its owner's frame
+                            self.cx.rep.hit("drop-copy:by-unwinding");
+                            let _ = fault::catch(move || {
+                                let _hold = dead;
+                                panic!("the owner of the container panics");
+                            });
+                        } else {
+                            drop(dead);
+                        }
                     }
                 }
                 _ => unreachable!(),
@@ -2183,7 +2206,31 @@ impl<'a> Engine<'a> {
         for i in 0..steps {
             // safety net: a panic that escapes an operation the model expects to return (the individual
             // operations catch the panics the model predicts)
-            match fault::catch(|| self.one_op(&mut suts, i)) {
+            // one step in sixty runs INSIDE A DESTRUCTOR WHILE THE THREAD IS UNWINDING (`std::thread::panicking()`
+            // is true throughout): an operation is an operation, whenever it is called
+            let during_unwind = !self.light && self.rng.chance(1, 60);
+            if during_unwind {
+                self.cx.rep.hit("step-during-unwind");
+            }
+            let stepped = fault::catch(|| {
+                if during_unwind {
+                    struct OnUnwind<G: FnMut()>(G);
+                    impl<G: FnMut()> Drop for OnUnwind<G> {
+                        fn drop(&mut self) {
+                            (self.0)()
+                        }
+                    }
+                    let _g = OnUnwind(|| self.one_op(&mut suts, i));
+                    panic!("<<unwind-carrier>>");
+                } else {
+                    self.one_op(&mut suts, i)
+                }
+            });
+            let stepped = match stepped {
+                Caught::Panic(m) if during_unwind && m == "<<unwind-carrier>>" => Caught::Ok(()),
+                other => other,
+            };
+            match stepped {
                 Caught::Ok(()) => {}
                 Caught::Panic(msg) => {
                     let (_, _, op) = ledger::ctx();
